@@ -244,11 +244,11 @@ Proof.
 Qed.
 
 (* if the reference species is enriched by its Boltzmann factor, the accepted species is enriched by its own (1e-8) *)
-Lemma donnan_boltzmann_power : forall zr zi tk psi, zr <> 0%R ->
-  Rpower (boltzmann zr tk psi) (zi / zr) = boltzmann zi tk psi.
+Lemma donnan_boltzmann_power : forall zr zi tk psi : R, zr <> 0%R ->
+  Rpower (boltzmann zr tk psi) (zi / zr)%R = boltzmann zi tk psi.
 Proof.
   intros zr zi tk psi Hz. unfold Rpower, boltzmann. rewrite ln_exp. f_equal.
-  replace (zi / zr * (- zr * F_C * psi / (R_J * tk))) with (- zi * F_C * psi / (R_J * tk) * (zr * / zr)) by (unfold Rdiv; ring).
+  replace (zi / zr * (- zr * F_C * psi / (R_J * tk)))%R with (- zi * F_C * psi / (R_J * tk) * (zr * / zr))%R by (unfold Rdiv; ring).
   rewrite Rinv_r by exact Hz. ring.
 Qed.
 
